@@ -728,7 +728,8 @@ end Slicec.Gen
 
 SLICEC_PANIC_PAT = re.compile(
     r"\b(todo!|unimplemented!|panic!|unreachable!|assert!|assert_eq!|assert_ne!)\s*\(|\.unwrap\(\)|\.expect\(|\.unwrap_unchecked\(\)|unreachable_unchecked\(\)"
-    r"|\[[^\]\[]*\.\.[^\]\[]*\]|\.split_last\(\)\.unwrap|\.remove\(\d+\)|\.swap_remove\(|\.replace_range\(|\.split_at\(|\.drain\(")
+    r"|\[[^\]\[]*\.\.[^\]\[]*\]|\.split_last\(\)\.unwrap|\.remove\(\d+\)|\.swap_remove\(|\.replace_range\(|\.split_at\(|\.drain\("
+    r"|(?<=[A-Za-z_\)\]])\[[^\]\[]+\]")  # last alternative: plain index expressions `x[i]`
 
 
 def enclosing_fn(src_lines, idx):
@@ -760,6 +761,8 @@ def gen_panic_sites(repo):
                 for m in SLICEC_PANIC_PAT.finditer(line):
                     if m.group(0).startswith("[") and not re.search(r"[A-Za-z_)\]]\s*$", line[:m.start()]):
                         continue  # an array/slice literal or attribute, not an index expression
+                    if m.group(0).startswith("[") and ".." not in m.group(0) and "//" in line[:m.start()]:
+                        continue  # plain `[...]` inside a trailing comment
                     norm = re.sub(r"\s+", " ", st)[:90]
                     key = f"{rel}::{enclosing_fn(lines, i)}::{norm}"
                     sites.append(key)
@@ -1823,7 +1826,44 @@ def gen_visitor_reach(repo):
     return text, 1
 
 
+def gen_comment_sanitize(repo):
+    """C16: in which unit does `sanitize_message_lines` measure and strip the common indentation of doc-comment lines?
+    true  = characters, with the blank-line / whitespace-before-link rule (the shape since the repair of D-16a / D-16b),
+    false = UTF-8 byte offsets with `unwrap_or_default()` (the shape before). Anything else is not modelled."""
+    T, rel = "CommentSanitize", "slicec/src/parsers/comments/grammar.rs"
+    src = read(repo, rel, T)
+    body = fn_body(src, "sanitize_message_lines", T, rel)
+    if not re.search(r"MessageComponent::Link\(\s*_\s*\)\s*=>\s*\{\s*(\w+)\s*=\s*0\s*;\s*break\s*;\s*\}", body):
+        raise ExtractionError(T, rel, "sanitize_message_lines: the `Link(_) => { common = 0; break; }` arm is gone")
+    new = {
+        "count": re.search(r"\w+\.chars\(\)\s*\.take_while\(\s*\|(\w+)\|\s*\1\.is_whitespace\(\)\s*\)\s*\.count\(\)", body),
+        "skip": re.search(r"if\s+\w+\.len\(\)\s*==\s*1\s*&&\s*\w+\s*==\s*\w+\.chars\(\)\s*\.count\(\)\s*\{\s*continue\s*;\s*\}", body),
+        "normalise": re.search(r"if\s+(\w+)\s*==\s*usize::MAX\s*\{\s*\1\s*=\s*0\s*;\s*\}", body),
+        "strip": re.search(r"\.char_indices\(\)[^;]*;\s*let\s+(\w+)\s*=\s*\w+\s*\.nth\(\s*\w+\s*\)\s*\.unwrap_or\(\s*\w+\.len\(\)\s*\)\s*;\s*"
+                           r"\w+\.replace_range\(\s*\.\.\1\s*,\s*\"\"\s*\)", body),
+    }
+    old = {
+        "count": re.search(r"let\s+(\w+)\s*=\s*\w+\.find\(\s*\|(\w+)\s*:\s*char\|\s*!\s*\2\.is_whitespace\(\)\s*\)\s*\.unwrap_or_default\(\)", body),
+        "strip": re.search(r"\w+\.replace_range\(\s*\.\.common_leading_whitespace\s*,\s*\"\"\s*\)", body),
+    }
+    if all(new.values()) and not any(old.values()):
+        chars = True
+    elif all(old.values()) and not any(new.values()):
+        chars = False
+    else:
+        found = [k for k, v in new.items() if v] + ["byte-" + k for k, v in old.items() if v]
+        raise ExtractionError(T, rel, "sanitize_message_lines has neither the character-counting nor the byte-offset shape "
+                                      "(recognised parts: %s): not modelled" % (", ".join(found) or "none"))
+    text = "-- GENERATED by translator/extract.py from slicec/src/parsers/comments/grammar.rs — do not edit.\nnamespace Slicec.Gen\n" \
+           "/-- `sanitize_message_lines` counts the common indentation in characters (`chars().take_while(..).count()`), skips lines that\n" \
+           "    consist of one all-whitespace text, turns \"no line with content\" into 0 and strips through `char_indices().nth(..)`;\n" \
+           "    false = it uses the byte index `find(..).unwrap_or_default()` and `replace_range(..index, \"\")` -/\n" \
+           f"def sanitizeCountsChars : Bool := {'true' if chars else 'false'}\nend Slicec.Gen\n"
+    return text, 1
+
+
 TABLES = {
+    "CommentSanitize": gen_comment_sanitize,
     "VisitorReach": gen_visitor_reach,
     "EncoderShapes": gen_encoder_shapes,
     "CompilerSchema": gen_compiler_schema,
